@@ -1,4 +1,4 @@
-(* C18 (unit atsp) -- ATSPGenerator: with tmat_class the emitted cost matrix satisfies the triangle inequality.
+(* C18 (unit atspgen) -- ATSPGenerator: with tmat_class the emitted cost matrix satisfies the triangle inequality.
    Only statements closed by [exact] and their Print Assumptions.
 
    Reading guide.  A matrix is a list of rows of exact integers (float32 values scaled by a power of two);
